@@ -136,6 +136,13 @@ def run(ctx):
         if rng.chance(0.3):
             cfg = {rng.choice(['loop_limit', 'var_limit', 'depth_limit']): rng.choice([0, 1, 2, 5, 50])}
         inputs.append((tag, d.encode('utf-8') if isinstance(d, str) else d, cfg))
+    # recursion that only the depth limit stops (an element reusing itself), under the default limit and under explicit ones:
+    # every front-end must answer with the depth error, whatever its own stack size
+    for rec in (b'<svg><g id="a"><rect xy="0" wh="1"/><reuse href="#a"/></g></svg>',
+                b'<svg><specs><g id="a"><reuse href="#b"/></g><g id="b"><rect wh="1"/><reuse href="#a"/></g></specs><reuse href="#a"/></svg>',
+                b'<svg><g id="a"><g><g><reuse href="#a"/></g></g></g></svg>'):
+        for cfg in ({}, {'depth_limit': 50}, {'depth_limit': 100, 'loop_limit': 1000, 'var_limit': 1024}, {'depth_limit': 5, 'loop_limit': 3}):
+            inputs.append(('sweep:selfreuse:%d' % cfg.get('depth_limit', 100), rec, cfg))
     for b in NONUTF:
         inputs.append(('nonutf8', b, {}))
         for _ in range(2 if quick else 10):
@@ -185,6 +192,25 @@ def run(ctx):
                         srv = Server(lib)
             st['traces_validated_against_impl'] += 1
         dist['cli_and_server_cases'] = len(sample)
+        # ---- the debug profile of the command (larger stack frames, overflow checks on): recursion-bound inputs only
+        env = dict(lib.ENV, CARGO_TARGET_DIR=lib.REPO_TARGET)
+        rc, out = lib.run(['cargo', 'build', '--offline', '--bin', 'svgdx'], cwd=lib.REPO, env=env, timeout=1200)
+        dbg = os.path.join(lib.REPO_TARGET, 'debug', 'svgdx')
+        if rc == 0 and os.path.exists(dbg):
+            deep = [t for t in inputs if t[0].startswith(('sweep:selfreuse', 'sweep:gnest', 'sweep:xmlnest', 'sweep:reusecycle', 'sweep:reusechain', 'sweep:paren', 'sweep:minus', 'sweep:varlit', 'sweep:funcnest')) and len(t[1]) < 200000]
+            for tag, data, cfg in deep:
+                st['evaluations'] += 1
+                try:
+                    p = subprocess.run([dbg] + lib.cfg_cli(cfg), input=data, stdout=subprocess.PIPE, stderr=subprocess.PIPE, timeout=BUDGET_S * 4, preexec_fn=lib._limit_mem)
+                    rcd = p.returncode
+                except subprocess.TimeoutExpired:
+                    rcd = 'timeout'
+                if rcd == 'timeout' or rcd < 0 or rcd > 2:
+                    yield {'kind': 'oracle', 'what': 'svgdx command (debug profile): %s on input %s (%d bytes, config %s): %r' % ('no exit' if rcd == 'timeout' else 'killed by signal / abnormal exit %s' % rcd, tag, len(data), cfg, data[:300]),
+                           'case': {'tag': tag, 'cfg': cfg, 'input_hex': data.hex()[:200000], 'profile': 'debug'}, 'observed': rcd, 'expected': 'exit 0 or 1', 'tag': tag}
+            dist['cli_debug_profile_cases'] = len(deep)
+        else:
+            ctx['stats'].setdefault('notes', []).append('debug profile of svgdx did not build: ' + out[-200:])
     finally:
         srv.stop()
     # ---- correspondence: the modelled scanners and reference walks against the hooks, outcome for outcome
